@@ -23,7 +23,9 @@ type scen struct {
 	down   bool
 }
 
-func (s *scen) m(b []byte)       { s.steps = append(s.steps, concStep{T: "m", H: hx(b)}) }
+func (s *scen) m(b []byte) {
+	s.steps = append(s.steps, concStep{T: "m", H: hx(b), C: s.g.spare() + 1})
+}
 func (s *scen) sync()            { s.steps = append(s.steps, concStep{T: "sync"}) }
 func (s *scen) sleep(us int)     { s.steps = append(s.steps, concStep{T: "sleep", N: us}) }
 func (s *scen) release(id int)   { s.steps = append(s.steps, concStep{T: "release", ID: id}) }
@@ -258,6 +260,10 @@ func concCase(r *hxlib.Run, emit func(hxlib.Case)) {
 	if res.Note != "" {
 		r.Count("conc:hold-not-reached")
 	}
+	r.Count("conc:replies-read-again-at-scenario-end")
+	if len(res.Late) > 0 {
+		r.Count("conc:reply-changed-after-send")
+	}
 	concCache[line] = res
 	lines := append([]string{line}, traceLines(res)...)
 	if res.Note != "" {
@@ -288,10 +294,23 @@ func bucket(n int) int {
 // regressionCases: minimal forms of the defects this check found (run first, forever).
 func regressionCases(r *hxlib.Run, emit func(hxlib.Case)) {
 	mk := func(kind string, lines ...string) {
-		emit(hxlib.Case{Lines: append(append([]string{cfgLine()}, lines...), "end"), NonTrivial: true, Kind: "regression:" + kind})
+		emit(hxlib.Case{Lines: append(append([]string{cfgLine()}, lines...), "end", "late"), NonTrivial: true, Kind: "regression:" + kind})
 	}
 	m := func(s string, ann ...string) string {
 		return strings.TrimSpace("m " + hx([]byte(s)) + " " + strings.Join(ann, " "))
+	}
+	// replies are messages of their own: a request that arrives in a reader's buffer (spare capacity) and produces
+	// several replies, read again after the operation (seeded change C13-r3-3: replies assembled in the request buffer)
+	for _, db := range []string{"hmap", "bolt"} {
+		qa := "q=" + hx([]byte(db)) + ":" + hx([]byte("k")) + ":*"
+		var ls []string
+		for i := 0; i < 5; i++ {
+			ls = append(ls, fmt.Sprintf("seed %s 74 %s -", hx([]byte(fmt.Sprintf("%s:k%d", db, i))), hx([]byte(fmt.Sprintf(`{"n":%d}`, i)))))
+		}
+		ls = append(ls, m("1|query|query "+db+":k", qa, "c=512"), "late", m("2|qsub|query "+db+":k", qa, "c=4096"),
+			m("3|create|"+db+`:k7|J{"n":7}`, "c=512"), m("4|update|"+db+`:k1|J{"n":11}`, "c=1"), m("5|delete|"+db+":k2", "c=512"), "late",
+			m("2|cancel", "c=512"), m("6|get|"+db+":k7", "c=512"))
+		mk("replies-stay-intact", ls...)
 	}
 	// insert into a record without accessor (non-JSON format; JSON format with empty data)
 	for _, db := range []string{"hmap", "bolt", "bdgr", "fstr", "blsd"} {
